@@ -280,6 +280,41 @@ fn print_case(sc: &Scenario, rec: &RunRecord, pubkey: &[u8]) {
         g_hex(&rec.token), g_hex(&uuid), kaids, sc.clock, inbox, sent, calls, rec.outcome, rec.end_ms, flags, rec.max_alloc, biggest_in, order, sc.note.replace('"', "'").replace('\\', "/")));
 }
 
+/// payload of the StoreCookie (configuration phase, id 0x0A) with this key, if the server sent one
+fn stored_cookie(rec: &RunRecord, key: &[u8]) -> Option<Vec<u8>> {
+    let mut in_cfg = false;
+    for (_, id, body) in rec.sent.iter() {
+        if !in_cfg { if *id == 2 && rec.shared_secret.is_some() { in_cfg = true; } continue; }
+        if *id == 0x0A {
+            let (kl, n) = get_varint(body)?;
+            let k = &body[n..n + kl as usize];
+            let rest = &body[n + kl as usize..];
+            let (pl, n2) = get_varint(rest)?;
+            if k == key { return Some(rest[n2..(n2 + pl as usize).min(rest.len())].to_vec()); }
+        }
+    }
+    None
+}
+/// (uuid, name) of the Login Success the server sent
+fn login_success_identity(rec: &RunRecord) -> Option<(u128, Vec<u8>)> {
+    if rec.shared_secret.is_none() { return None; }
+    for (_, id, body) in rec.sent.iter() {
+        if *id == 2 && body.len() >= 17 {
+            let u = u128::from_be_bytes(body[..16].try_into().ok()?);
+            let (l, n) = get_varint(&body[16..])?;
+            return Some((u, body[16 + n..16 + n + l as usize].to_vec()));
+        }
+    }
+    None
+}
+/// should_authenticate flag of the Encryption Request
+fn enc_request_flag(rec: &RunRecord) -> Option<bool> {
+    for (_, id, body) in rec.sent.iter() {
+        if *id == 1 && body.len() > 10 { return Some(*body.last()? == 1); }
+    }
+    None
+}
+
 fn main() {
     quiet_panics();
     let mut r = Rng::from_env();
@@ -464,6 +499,44 @@ fn main() {
                     let mut sc = build2("C06", &mut r, &p, None, format!("next-state {}", ns));
                     for a in sc.acts.iter_mut() { if let Act::Frame { id: 0, body } = a { *body = handshake_body(p.proto, &p.host, p.port, ns); break; } }
                     run(sc, &mut r);
+                }
+            }
+            "C10" => {
+                // two-connection histories: authenticate + get transferred, then come back with what was stored
+                for i in 0..(12 * scale) {
+                    let expiry: u64 = 21_600;
+                    let secret = match i % 4 { 0 => None, 1 => Some(r.bytes(1)), 2 => Some(r.bytes(64)), _ => Some(r.bytes(16)) };
+                    let client = rnd_sa(&mut r);
+                    let mut p1 = base_params(&mut r, Intent::Login);
+                    p1.session_payload = match i % 3 { 0 => None, 1 => Some(b"null".to_vec()),
+                        _ => Some(serde_json::to_vec(&SessionCookie { id: Uuid::from_u128(77), server_address: "old.example".into(), server_port: 1, trace_id: None }).unwrap()) };
+                    let mut ads = base_ads(&mut r);
+                    if let Ok(d) = &mut ads.discover.0 { if d.is_empty() { d.push(rnd_target(&mut r, 0)); } }
+                    if i % 7 == 6 { ads.select.0 = SelectMode::NoneSel; }
+                    let sc1 = build("C10", &mut r, &p1, ads.clone(), secret.clone(), client, format!("history {} first", i));
+                    let rec1 = run_scenario(&sc1, &mut r);
+                    print_case(&sc1, &rec1, &pubkey);
+                    // what the client stored
+                    let stored = stored_cookie(&rec1, b"passage:authentication");
+                    let ident1 = login_success_identity(&rec1);
+                    let delta: i64 = *r.pick(&[0i64, 5, expiry as i64 - 1, expiry as i64, expiry as i64 + 1, 3 * expiry as i64]);
+                    let same_ip = i % 5 != 4;
+                    let client2 = if same_ip { SocketAddr::new(client.ip(), 40_000 + (i as u16)) } else { SocketAddr::new("198.51.100.9".parse().unwrap(), client.port()) };
+                    let mut p2 = base_params(&mut r, Intent::Transfer);
+                    p2.auth_payload = stored.clone();
+                    p2.session_payload = stored_cookie(&rec1, b"passage:session");
+                    let mut sc2 = build("C10", &mut r, &p2, ads.clone(), secret.clone(), client2, format!("history {} second delta {} same_ip {}", i, delta, same_ip));
+                    sc2.clock = (FIXED_NOW as i64 + delta) as u64;
+                    let rec2 = run_scenario(&sc2, &mut r);
+                    print_case(&sc2, &rec2, &pubkey);
+                    let ident2 = login_success_identity(&rec2);
+                    let flag2 = enc_request_flag(&rec2);
+                    let auth_called2 = rec2.calls.iter().any(|c| c.1.starts_with("(CAuth"));
+                    let g_ident = |x: &Option<(u128, Vec<u8>)>| match x { Some((u, n)) => format!("(Some ({}, {}))", u, g_hex(n)), None => "None".into() };
+                    emit_case("C10P", &format!("{{| pp_stored := {}; pp_secret := {}; pp_within := {}; pp_same_ip := {}; pp_ident1 := {}; pp_ident2 := {}; pp_flag2 := {}; pp_auth_called2 := {}; pp_issued1 := {} |}}",
+                        g_opt(stored.as_ref().map(|s| g_hex(s))), g_bool(secret.is_some()), g_bool(delta <= expiry as i64), g_bool(same_ip), g_ident(&ident1), g_ident(&ident2),
+                        match flag2 { Some(b) => format!("(Some {})", g_bool(b)), None => "None".into() }, g_bool(auth_called2),
+                        g_bool(rec1.outcome == "OOk")));
                 }
             }
             "C07" => {
